@@ -34,7 +34,7 @@ def Sn(a):
     return sn(a)
 
 
-def run_roundtrips(ctx, FST, src, label, rnd, n_targets):
+def run_roundtrips(ctx, FST, src, label, rnd, n_targets, only=None):
     from .. import edits, embed
     from ..base import insync, short, refparse
     base, _ = refparse(src)
@@ -58,9 +58,14 @@ def run_roundtrips(ctx, FST, src, label, rnd, n_targets):
         cls = type(node).__name__
         kinds = ['copy', 'copy_ast', 'own_src', 'copy_src', 'cut_put']
         kind = rnd.choice(kinds)
+        variant = rnd.choice(['single', 'slice1', 'slice2'])
+        if only is not None:
+            if [list(p) for p in path] != [list(p) for p in only['path']]:
+                continue
+            kind, variant = only['kind'], only.get('variant', variant)
         root = FST(src, 'exec')
         t = edits.resolve(root.a, path).f
-        case = {'part': 'A', 'src': src, 'path': path, 'kind': kind, 'label': label}
+        case = {'part': 'A', 'src': src, 'path': path, 'kind': kind, 'variant': variant, 'label': label}
         texts = []
         try:
             for rep in range(2):
@@ -78,11 +83,11 @@ def run_roundtrips(ctx, FST, src, label, rnd, n_targets):
                     if pf.idx is None:
                         x = t.copy()
                         par.put(x, field=pf.name)
-                    elif rnd.random() < 0.5:
+                    elif variant == 'single':
                         x = t.cut()
                         par.insert(x, pf.idx, pf.name)
                     else:
-                        n = rnd.randint(1, 2)
+                        n = 1 if variant == 'slice1' else 2
                         x = par.get_slice(pf.idx, pf.idx + n, pf.name, cut=True)
                         par.put_slice(x, pf.idx, pf.idx, pf.name)
                 texts.append(root.src)
@@ -335,7 +340,8 @@ def replay(ctx, case):
     from fst import FST
     import random
     if case.get('part') == 'A':
-        run_roundtrips(ctx, FST, case['src'], 'replay', random.Random(0), 10 ** 6)
+        for variant in ([case['variant']] if case.get('variant') else ['single', 'slice1', 'slice2']):
+            run_roundtrips(ctx, FST, case['src'], 'replay', random.Random(0), 10 ** 6, only=dict(case, variant=variant))
     elif case.get('part') == 'B':
         root = FST(case['host'], 'exec')
         tgt = root
